@@ -436,6 +436,10 @@ Definition table : list (Z * (list Z -> res)) :=
     e "int.bits"%opname (fun a => match a with [x; ax] =>
         let x := int_in ax x in
         Ok [bitlen x; b2z (x <? 0); b2z (Z.odd x); b2z (x =? 0); b2z (x =? 1); b2z (Z.abs x =? 1)] | _ => Panic end);
+    (* Select / CondNeg / Increment / Decrement / Double / Square of Int operands *)
+    e "int.misc"%opname (fun a => match a with [c; x; ax; y; ay] =>
+        let x := int_in ax x in let y := int_in ay y in
+        Ok [if c =? 1 then y else x; x + 1; x - 1; 2 * x; x * x; if c =? 1 then - x else x] | _ => Panic end);
     (* 64-bit conversions: v given as a signed 64-bit value; outputs value, |v| mod 2^64 *)
     e "int.conv64"%opname (fun a => match a with [v] => Ok [v; Z.abs v mod 2 ^ 64; v] | _ => Panic end);
     e "int.twos"%opname (fun a => match a with [x; ax] => Ok (twos_bytes (int_in ax x) ax) | _ => Panic end);
@@ -520,6 +524,9 @@ Definition table : list (Z * (list Z -> res)) :=
         if x <? 0 then Refuse else let r := Z.sqrt x in if r * r =? x then Ok [r] else Refuse | _ => Panic end);
     e "z.shift"%opname (fun a => match a with [x; s] => Ok [x * 2 ^ s; Z.sgn x * (Z.abs x / 2 ^ s)] | _ => Panic end);
     e "z.mod"%opname (fun a => match a with [x; m] => if m <=? 0 then Refuse else Ok [x mod m] | _ => Panic end);
+    (* conversions between the number structures: x (signed), modulus m *)
+    e "num.convert"%opname (fun a => match a with [x; m] =>
+        Ok [b2z (0 <=? x); Z.abs x; x mod m; Z.abs x mod m; mod_symmetric x m] | _ => Panic end);
     (* ---- rationals a/b, c/d (b, d > 0) *)
     e "q.arith"%opname (fun a => match a with [a1; b1; c1; d1] =>
         let '(sn, sd) := rat_canon (a1 * d1 + c1 * b1) (b1 * d1) in
